@@ -164,6 +164,10 @@ func (c c10Config) spec() *quic.QUICSpec {
 	return &s
 }
 
+// c10Insufficient: an n-byte encoding cannot carry pn to a peer that has acknowledged
+// nothing (RFC 9000 A.3 with expected packet number 0 recovers pn mod 2^(8n)).
+func c10Insufficient(pn uint64, n int) bool { return n >= 1 && n < 8 && pn >= uint64(1)<<(8*uint(n)) }
+
 const c10MaxDatagram = 1452 // protocol.MaxPacketBufferSize: the bound the packer enforces
 
 // c10Check compares one captured flight with the spec. Returned keys are relative to the
@@ -231,12 +235,15 @@ func c10Check(s *quic.QUICSpec, fl sim.Flight, dial int, prevTokens [][]byte) (f
 	if n := len(ips.InitPacketNumberLengths); n > 0 && ips.InitPacketNumber <= maxPN {
 		for i, o := range obs {
 			want := int(ips.InitPacketNumberLengths[min(i, n-1)])
+			if c10Insufficient(o.Pkt.PN, want) && o.Pkt.PNLen > want {
+				continue // the spec'd length cannot carry this packet number: a longer one is the only decodable choice
+			}
 			if o.Pkt.PNLen != want {
 				return explore.Failf("pn-length", "dial %d: Initial packet #%d encodes its packet number in %d bytes, spec list says %d", dial, i, o.Pkt.PNLen, want), nil, ""
 			}
 		}
 	} else if ips.InitPacketNumberLength != 0 && ips.InitPacketNumber <= maxPN {
-		if first[0].Pkt.PNLen != int(ips.InitPacketNumberLength) {
+		if first[0].Pkt.PNLen != int(ips.InitPacketNumberLength) && !(c10Insufficient(first[0].Pkt.PN, int(ips.InitPacketNumberLength)) && first[0].Pkt.PNLen > int(ips.InitPacketNumberLength)) {
 			return explore.Failf("pn-length", "dial %d: first Initial packet encodes its packet number in %d bytes, spec says %d", dial, first[0].Pkt.PNLen, ips.InitPacketNumberLength), nil, ""
 		}
 	}
